@@ -120,6 +120,7 @@ type VC struct {
 	heapTrace *[]heapRead
 	opReads   map[*FuncInfo][]heapRead
 	revealed  map[string]bool
+	snaps     map[string]string
 	oracle    *pathOracle
 	posCount  map[string]int
 	loopOld   map[types.Object]Val
@@ -212,8 +213,14 @@ func (vc *VC) assume(st *State, fact string) {
 	if fact == "true" {
 		return
 	}
-	vc.trace = append(vc.trace, fmt.Sprintf("(assert %s)", implies(st.pc, fact)))
-	vc.labels = append(vc.labels, vc.curLabel)
+	// one assertion per conjunct, so that hypothesis pruning works at the granularity of single facts
+	for _, c := range flattenGoalFull(fact) {
+		if c == "true" {
+			continue
+		}
+		vc.trace = append(vc.trace, fmt.Sprintf("(assert %s)", implies(st.pc, c)))
+		vc.labels = append(vc.labels, vc.curLabel)
+	}
 }
 
 func (vc *VC) axiom(fact string) {
@@ -377,6 +384,9 @@ func (vc *VC) merge2(a, b *State) *State {
 		ta := vc.heapGet(a, k, srt)
 		tb := vc.heapGet(b, k, srt)
 		n.heap[k] = vc.define("H."+k, srt, ite(a.pc, ta, tb))
+		if n.heap[k] != ta && n.heap[k] != tb && isAtom(n.heap[k]) {
+			vc.axiom(eq(vc.vidOf(n.heap[k]), ite(a.pc, vc.vidOf(ta), vc.vidOf(tb))))
+		}
 	}
 	if len(a.defers) != len(b.defers) {
 		panic(unsupported("merge of paths with different deferred calls"))
